@@ -12,6 +12,7 @@ ASSUMPTIONS = [
     "leg B: every process step of recorded runs is compared with a standalone flux calculation at the reported state and permeances; tolerance 1e-9 (plus conditioning of 1-y for ratios)",
 ]
 CLAUSES = {
+    "Cl_LawAtOwnComposition": "model honoured: the standalone fluxes obey permeance x (feed pressure - permeate pressure by the SELECTED model at the fluxes' own composition), where the iteration contracts",
     "Cl_SameFluxes": "helper / one-point ideal curve / step 0 of each process model report the standalone fluxes (model honoured)",
     "Cl_YFromFluxes": "every reported permeate composition = J1/(J1+J2)",
     "Cl_SepFactorDef": "every separation factor = (y1/y2)/(x1/x2) in the mass basis", "Cl_PsiDef": "PSI = total flux * (separation factor - 1)",
@@ -58,11 +59,20 @@ def run(ctx, pool):
     # every step of process runs = standalone calculation at the reported state
     tw2, stats = pc.record_processes(ctx, ctx.n(300, 8000), ctx.n(24, 600), {"with_std": True})
     res2 = core.validate_traces(None, ctx, tw2, pool, "Trace_Process.tla", "Trace_Process_C08.cfg", tag="proc")
+    # "the selected activity model is honoured": the standalone answer (with which all other entry points are compared above) obeys the
+    # solution-diffusion law with the permeate side evaluated by the SELECTED model at the composition of the returned fluxes
+    n3 = ctx.n(480, 16000)
+    per3 = max(60, n3 // 32)
+    tw3 = TraceWriter()
+    for traces, st in core.parallel("harness.rec_solver", "record_job", [(ctx.seed * 700001 + j, per3, 0.2, None) for j in range((n3 + per3 - 1) // per3)]):
+        tw3.traces.extend(traces)
+    res3 = core.validate_traces(None, ctx, tw3, pool, "Trace_FluxSolver.tla", "Trace_FluxSolver_C08.cfg", tag="law")
     hist = core.event_histogram(tw)
     hist.update(core.event_histogram(tw2))
-    res = {"violations": res1["violations"] + res2["violations"], "states": res1["states"] + res2["states"] + r.distinct,
-           "transitions": res1["transitions"] + res2["transitions"] + max(0, r.generated - r.init_states),
-           "traces": res1["traces"] + res2["traces"], "failures": failures}
+    hist.update(core.event_histogram(tw3))
+    res = {"violations": res1["violations"] + res2["violations"] + res3["violations"], "states": res1["states"] + res2["states"] + res3["states"] + r.distinct,
+           "transitions": res1["transitions"] + res2["transitions"] + res3["transitions"] + max(0, r.generated - r.init_states),
+           "traces": res1["traces"] + res2["traces"] + res3["traces"], "failures": failures}
     res["coverage"] = {
         "evaluations": len(tw.traces) + len(tw2.traces), "distinct_nontrivial": len(covered) + len(stats["nontrivial"]),
         "rule": "each of the 48 TLC-enumerated rows (entry point x activity model x permeate mode) instantiated on random mixtures / "
